@@ -48,6 +48,7 @@ void FS::reset() {
     next_handle = 1;
     n_events = 0;
     default_rpolicy = RPolicy();
+    rpolicy_by_path.clear();
     fopen_fail_k = 0;
     fopen_w_calls = 0;
 }
@@ -264,8 +265,9 @@ static FILE* sim_fopen(const char* path, const char* mode, bool is64) {
     of.handle = F.next_handle++;
     of.writing = wr;
     of.is_stream = true;
-    of.rp = F.default_rpolicy;
-    of.rrng = sim::Rng(sim::mix64(F.default_rpolicy.seed, of.handle));
+    auto rpit = F.rpolicy_by_path.find(path);
+    of.rp = rpit != F.rpolicy_by_path.end() ? rpit->second : F.default_rpolicy;
+    of.rrng = sim::Rng(sim::mix64(of.rp.seed, of.handle));
     ino->opens++;
     F.open_files[fd] = of;
     g_is_sim[fd] = 1;
